@@ -204,14 +204,19 @@ def _alarm(signum, frame):
     raise Timeout()
 
 
-def descriptive(e):
-    """ValueError/TypeError raised by an explicit `raise` statement (argument validation)"""
+def descriptive(e, own_only=False):
+    """ValueError/TypeError raised by an explicit `raise` statement (argument validation). With
+    `own_only` the `raise` must be the library's own: an exception that Amaranth raises from its
+    internals during `elaborate()` because the library handed it something unusable is an internal
+    error of the library, not a refusal of the user's parameters."""
     if not isinstance(e, (ValueError, TypeError)):
         return False
     tb = traceback.extract_tb(e.__traceback__)
     if not tb:
         return False
     last = tb[-1]
+    if own_only and not last.filename.startswith(lib.REPO + "/amaranth_soc"):
+        return False
     return (last.line or "").strip().startswith("raise")
 
 
@@ -263,7 +268,7 @@ def run_case(case):
             except BaseException as e:
                 where = traceback.extract_tb(e.__traceback__)[-1]
                 site = f"{os.path.basename(where.filename)}:{where.name}"
-                if descriptive(e) and n == 0:
+                if descriptive(e, own_only=True) and n == 0:
                     # a refusal must be repeatable as well: the same instance, elaborated again, is refused
                     # again in the same way (no stale state left behind by the refused attempt)
                     first = (type(e).__name__, str(e))
